@@ -11,7 +11,9 @@ package main
 // SHARED_ST).  Every following line is a program
 //   {"id", "src", "opts":{..}|absent, "steps":N, "mods":{"name.star": src}}.
 // For every program the command records one observation per run:
-//   kind "proc"  k=0..procs-1   fresh child process (new maphash seed), nothing executed before
+//   kind "proc"  k=0..procs-1   child process k (re-exec of this binary: its own maphash seed); a child
+//                               executes a chunk of -chunk programs, in another order for every k,
+//                               so the first program of a chunk runs in a process that executed nothing before
 //   kind "seq"   k=0,1          this process, one OS thread, new starlark.Thread; pass 0 walks the
 //                               corpus forwards, pass 1 backwards (so different executions precede)
 //   kind "reuse" k=0            this process, ONE starlark.Thread reused for the whole corpus
@@ -21,7 +23,9 @@ package main
 // (iteration order of every reachable list/dict/set, aliasing by object ids, struct fields in
 // AttrNames order), StringDict.String(), AttrNames()/dir() of every value kind met, error text,
 // EvalError.Backtrace(), ExecutionSteps(), and the compact records of the ob() probe used by the
-// order-exposing family (keys decoded to pool indices).
+// order-exposing family (keys decoded to pool indices).  A wall-clock watchdog (C03_WATCHDOG
+// seconds, default 20) cancels runs whose single steps are too expensive; such runs are marked
+// "timeout" and their program is not judged.  C03_TIMING=1 reports slow programs on stderr.
 
 import (
 	"bytes"
